@@ -238,7 +238,7 @@ theorem pinv_connError (size : Nat) (p p' : Pool) (k n m : Nat) (h : PInv size p
 structure HInv (h : Host) : Prop where
   cur : ∀ p, h.cur = some p → PInv h.cfg.size p
   old : ∀ p ∈ h.old, PInv h.cfg.size p ∧ p.closed = true
-  sess : h.sessClosed = true → h.lateAdd = false → h.cur = none
+  sess : h.sessClosed = true → h.cur = none
 
 theorem firstOk_inv (P : Pool → Prop) (f : Pool → Option (Pool × Nat))
     (hf : ∀ p p' n, P p → f p = some (p', n) → P p') :
@@ -286,7 +286,7 @@ theorem route_inv (h h' : Host) (f : Pool → Option (Pool × Nat))
       injection hs with hs; subst hs
       refine ⟨⟨?_, i2, ?_⟩, rfl⟩
       · intro q hq; simp at hq; subst hq; exact (hf p _ n (i1 p hc) hfp).1
-      · intro hsc hl; have := i3 hsc hl; simp [hc] at this
+      · intro hsc; have := i3 hsc; simp [hc] at this
     · exact old_case h' hs
   · exact old_case h' hs
 
@@ -297,7 +297,7 @@ theorem fillCur_inv (h : Host) (hi : HInv h) : HInv h.fillCur ∧ h.fillCur.cfg 
   · rename_i p hc
     refine ⟨⟨?_, i2, ?_⟩, rfl⟩
     · intro q hq; simp at hq; subst hq; exact pinv_fill _ _ _ (i1 p hc)
-    · intro hsc hl; have := i3 hsc hl; simp [hc] at this
+    · intro hsc; have := i3 hsc; simp [hc] at this
   · exact ⟨⟨i1, i2, i3⟩, rfl⟩
 
 theorem hinv_init (c : Cfg) (hpos : 0 < c.size) : HInv (Host.init c) := by
@@ -334,7 +334,7 @@ theorem hinv_step (h h' : Host) (a : Act) (hi : HInv h) (hs : h.step a = some h'
       injection hs with hs; subst hs
       refine ⟨⟨?_, hi.old, ?_⟩, rfl⟩
       · intro q hq; simp at hq; subst hq; exact (pinv_fillCheck _ p (hi.cur p hc)).1
-      · intro hsc hl; have := hi.sess hsc hl; simp [hc] at this
+      · intro hsc; have := hi.sess hsc; simp [hc] at this
     · injection hs with hs; subst hs; exact ⟨hi, rfl⟩
   | fillGo =>
     exact route_inv h h' _ (fun p p' n hp hfp => pinv_fillGo _ p p' h.nextId n hp hfp) hi hs
@@ -344,24 +344,16 @@ theorem hinv_step (h h' : Host) (a : Act) (hi : HInv h) (hs : h.step a = some h'
   | up =>
     simp only [Host.step] at hs
     split at hs
-    · simp at hs
-    · have hi0 : HInv { h with lateAdd := h.lateAdd || h.sessClosed } := by
-        refine ⟨hi.cur, hi.old, ?_⟩
-        intro hsc hl
-        simp only [Bool.or_eq_false_iff] at hl
-        simp only at hsc
-        rw [hsc] at hl; simp at hl
+    · injection hs with hs; subst hs; exact ⟨hi, rfl⟩
+    · rename_i hns
       split at hs
-      · injection hs with hs; subst hs; exact fillCur_inv _ hi0
+      · injection hs with hs; subst hs; exact fillCur_inv _ hi
       · rename_i hc
         injection hs with hs; subst hs
-        have hi2 : HInv { { h with lateAdd := h.lateAdd || h.sessClosed } with cur := some Pool.new } := by
+        have hi2 : HInv { h with cur := some Pool.new } := by
           refine ⟨?_, hi.old, ?_⟩
           · intro q hq; simp at hq; subst hq; exact pinv_new _
-          · intro hsc hl
-            simp only [Bool.or_eq_false_iff] at hl
-            simp only at hsc
-            rw [hsc] at hl; simp at hl
+          · intro hsc; exact absurd hsc hns
         exact fillCur_inv _ hi2
   | down =>
     simp only [Host.step] at hs
@@ -374,7 +366,7 @@ theorem hinv_step (h h' : Host) (a : Act) (hi : HInv h) (hs : h.step a = some h'
         rcases List.mem_cons.mp hq with rfl | hq
         · exact pinv_close _ p (hi.cur p hc)
         · exact hi.old q hq
-      · intro _ _; rfl
+      · intro _; rfl
     · injection hs with hs; subst hs; exact ⟨hi, rfl⟩
   | pclose =>
     simp only [Host.step] at hs
@@ -383,7 +375,7 @@ theorem hinv_step (h h' : Host) (a : Act) (hi : HInv h) (hs : h.step a = some h'
       injection hs with hs; subst hs
       refine ⟨⟨?_, hi.old, ?_⟩, rfl⟩
       · intro q hq; simp at hq; subst hq; exact (pinv_close _ p (hi.cur p hc)).1
-      · intro hsc hl; have := hi.sess hsc hl; simp [hc] at this
+      · intro hsc; have := hi.sess hsc; simp [hc] at this
     · injection hs with hs; subst hs; exact ⟨hi, rfl⟩
   | sclose =>
     simp only [Host.step] at hs
@@ -396,10 +388,10 @@ theorem hinv_step (h h' : Host) (a : Act) (hi : HInv h) (hs : h.step a = some h'
         rcases List.mem_cons.mp hq with rfl | hq
         · exact pinv_close _ p (hi.cur p hc)
         · exact hi.old q hq
-      · intro _ _; rfl
+      · intro _; rfl
     · rename_i hc
       injection hs with hs; subst hs
-      exact ⟨⟨by intro q hq; simp [hc] at hq, hi.old, fun _ _ => hc⟩, rfl⟩
+      exact ⟨⟨by intro q hq; simp [hc] at hq, hi.old, fun _ => hc⟩, rfl⟩
   | scancel =>
     simp only [Host.step] at hs
     split at hs
